@@ -78,6 +78,19 @@ theorem prompt_exit_without_option (cfg : Cfg) (hg : cfg.grace = 0) (s : St) (hr
     step cfg s .signal = some { s with phase := .exited 0 } := by
   simp [step, hr, hg]
 
+/-- … also while the agent is still waiting for its backend to come up (with or without the
+    grace option): no handler is installed yet, so the signal's default action ends the process -/
+theorem signal_during_gate_exits (cfg : Cfg) (s : St) (hg : s.phase = .gating) :
+    step cfg s .signal = some { s with phase := .exited 2 } := by
+  simp [step, hg]
+
+/-- T3 for the line above: `main` installs the signal handler (`utils.ShutdownSignalChan`, i.e.
+    `signal.Notify`) only after `waitForHealthy` has returned — a handler installed earlier would
+    swallow a signal that arrives during the health gate, because the channel is read only later. -/
+theorem handler_installed_after_gate :
+    Skel.precedes (.call "waitForHealthy") (.call "utils.ShutdownSignalChan") skel_agent_main = true ∧
+    Skel.count (.call "utils.ShutdownSignalChan") skel_agent_main = 1 := by decide
+
 /-- T3: in `main` the signal is awaited before the polling context is cancelled, the cancel
     precedes the grace sleep, and the sleep precedes the exit -/
 theorem shutdown_order :
